@@ -46,7 +46,27 @@ func TestVerifReplayIsNumeric(t *testing.T) {
 func TestVerifReplayObject(t *testing.T) {
 	vals := vrStrings([]string{"a", "\"", "\\", "\n", "\x01", "\x1f", "0", ".", "é", "t"}, 3)
 	vals = append(vals, "true", "TRUE", "false", "False", "007", "1.50", " ", "\x7f", "\t\r\b\f")
+	// every single character up to U+2100 alone and between letters (all control characters, the
+	// quote, the backslash, DEL, C1 controls, line/paragraph separators)
+	for r := rune(0); r < 0x2100; r++ {
+		vals = append(vals, string(r), "x"+string(r)+"y")
+	}
 	for _, v := range vals {
+		var kb JsonObjectBuilder
+		kb.Open()
+		kb.WriteString(v, "1")
+		kb.Close()
+		var km map[string]interface{}
+		if err := json.Unmarshal([]byte(kb.String()), &km); err != nil {
+			fmt.Printf("REPRODUCED: key %q renders as %q which is not valid JSON: %v\n", v, kb.String(), err)
+			t.Fail()
+			return
+		}
+		if _, ok := km[v]; !ok && string([]rune(v)) == v {
+			fmt.Printf("REPRODUCED: key %q renders as %q which decodes to other keys %v\n", v, kb.String(), km)
+			t.Fail()
+			return
+		}
 		var jb JsonObjectBuilder
 		jb.Open()
 		jb.WriteInferred("k", v)
